@@ -131,7 +131,7 @@ impl MetaDataBroker for LocalBroker {
         Box::pin(async move {
             let (i, f) = self.faults.next();
             if f == Fault::Drop || f == Fault::DropReply {
-                self.log(i, &f, "get_proxy", json!(address), json!("lost"));
+                self.log(i, &f, "get_proxy", json!(address), json!({"epoch": -1}));
                 return Err(MetaDataBrokerError::RequestFailed);
             }
             let r = self.svc().get_proxy_by_address(&address).await.map_err(|_| MetaDataBrokerError::InvalidReply);
@@ -337,6 +337,7 @@ impl ClusterWorld {
     }
 
     pub async fn sync_round(&self, who: &str) -> Vec<String> {
+        self.net.event(json!({"kind": "round_start", "who": who, "what": "sync"}));
         let db = self.local_broker(who);
         let cf = self.client_factory(who);
         let sync = ProxyMetaRespSynchronizer::new(
@@ -350,6 +351,7 @@ impl ClusterWorld {
     }
 
     pub async fn migration_round(&self, who: &str) -> Vec<String> {
+        self.net.event(json!({"kind": "round_start", "who": who, "what": "migration"}));
         let db = self.local_broker(who);
         let cf = self.client_factory(who);
         let sync = ParMigrationStateSynchronizer::new(
@@ -365,6 +367,7 @@ impl ClusterWorld {
     }
 
     pub async fn detect_round(&self, who: &str) -> Vec<String> {
+        self.net.event(json!({"kind": "round_start", "who": who, "what": "detect"}));
         let db = self.local_broker(who);
         let cf = self.client_factory(who);
         let det = ParFailureDetector::new(
@@ -381,6 +384,7 @@ impl ClusterWorld {
     }
 
     pub async fn failover_round(&self, who: &str) -> Vec<String> {
+        self.net.event(json!({"kind": "round_start", "who": who, "what": "failover"}));
         let db = self.local_broker(who);
         let h = ParFailureHandler::new(BrokerProxyFailureRetriever::new(db.clone()), ReplaceNodeHandler::new(db));
         let errs = drain(h.run()).await;
